@@ -26,8 +26,8 @@ theorem handleVerificationDone_doVerify (m : M) (_h : m.1.doVerify = false) :
   rw [handleVerificationDone_eq]
   dsimp only
   split
-  · simp
-  · next hd => simpa using hd
+  · simp only [onSt_fst]; exact stop_doVerify_false _ _ rfl
+  · next hd => exact hadCheck_doVerify_false _ (by simpa using hd)
 
 /-- The state after a step, in terms of its three phases. -/
 theorem step_st (s : St) (p : Parked) (kn : Nat → Bool) (op : Op) :
@@ -57,11 +57,11 @@ theorem runWorkers_stays_stopped (fuel : Nat) (m : M) (h : Life m.1) (he : m.1.e
     split
     · exact ⟨he, hv⟩
     · simp only [hsa, i1, i2, Bool.false_eq_true, ↓reduceIte, Bool.false_and]
-      split
-      · split
-        · exact ih _ (writerRun_life m _ h) (by simpa using he) (by simpa using hv)
-        · exact ⟨he, hv⟩
-      · exact ⟨he, hv⟩
+      repeat' split
+      all_goals first
+        | exact ⟨he, hv⟩
+        | exact ih _ (writerRun_life m _ h) (by simpa using he) (writerRun_doVerify_false m _ hv)
+        | exact ih _ (handlePieceWriteDone_life m _ _ h) (by simpa using he) (handlePieceWriteDone_doVerify_false m _ _ hv)
 
 /-! ### a stop announcer that waits for a hanging tracker -/
 
@@ -85,6 +85,8 @@ theorem handlePieceWriteDone_stopAnn_mono (m : M) (w : WriteJob) (e : Bool) (h :
   dsimp only
   split
   · simpa using h
+  split
+  · simpa using h
   · split
     · simp only [onSt_fst]; apply stop_stopAnn_mono; simpa using h
     · split
@@ -98,7 +100,9 @@ theorem writerRun_stopAnn_mono (m : M) (w : WriteJob) (h : m.1.stopAnn = true) :
   unfold writerRun
   dsimp only
   repeat' split
-  all_goals (apply handlePieceWriteDone_stopAnn_mono; simpa using h)
+  all_goals first
+    | (apply handlePieceWriteDone_stopAnn_mono; simpa using h)
+    | (simpa using h)
 
 /-- While a tracker does not answer the `stopped` event the torrent stays `Stopping`: the only worker that
 can still complete is a write that was in flight, and its completion neither clears the stop announcer nor
@@ -116,11 +120,12 @@ theorem runWorkers_hangs (fuel : Nat) (m : M) (h : Life m.1) (hs : m.1.stopAnn =
     split
     · exact ⟨h.sa hs, hs, hh, hv⟩
     · simp only [hs, hh, i1, i2, Bool.false_eq_true, ↓reduceIte, Bool.false_and, Bool.not_true, Bool.and_false]
-      split
-      · split
-        · exact ih _ (writerRun_life m _ h) (writerRun_stopAnn_mono m _ hs) (by simpa using hh) (by simpa using hv)
-        · exact ⟨h.sa hs, hs, hh, hv⟩
-      · exact ⟨h.sa hs, hs, hh, hv⟩
+      repeat' split
+      all_goals first
+        | exact ⟨h.sa hs, hs, hh, hv⟩
+        | exact ih _ (writerRun_life m _ h) (writerRun_stopAnn_mono m _ hs) (by simpa using hh) (writerRun_doVerify_false m _ hv)
+        | exact ih _ (handlePieceWriteDone_life m _ _ h) (handlePieceWriteDone_stopAnn_mono m _ _ hs) (by simpa using hh)
+            (handlePieceWriteDone_doVerify_false m _ _ hv)
 
 /-- A torrent that is not running has nobody a parked piece message could be delivered to. -/
 theorem deliverParked_quiet (m : M) (p : Parked) (h : Life m.1) (hq : m.1.errC = false ∨ m.1.stopAnn = true) :
@@ -187,12 +192,12 @@ theorem handle_stopOp (s : St) (p : Parked) (kn : Nat → Bool) (op : Op) (hop :
   rcases hop with rfl | rfl
   · refine ⟨?_, ?_, ?_, ?_⟩
     · simp only [handle, onSt_fst]; rw [stop_panicked]
-    · simp only [handle, onSt_fst, stop_doVerify]
+    · simp only [handle, onSt_fst]; exact stop_doVerify_false _ _ rfl
     · simp only [handle, onSt_fst, stop_stopHang]
     · simp only [handle, onSt_fst]; exact stop_idle { s with doVerify := false } false
   · refine ⟨?_, ?_, ?_, ?_⟩
     · simp only [handle, onSt_fst]; rw [stop_panicked]
-    · simp only [handle, onSt_fst, stop_doVerify]
+    · simp only [handle, onSt_fst]; exact stop_doVerify_false _ _ rfl
     · simp only [handle, onSt_fst, stop_stopHang]
     · simp only [handle, onSt_fst]; exact stop_idle { s with doVerify := false } false
 
@@ -202,8 +207,8 @@ theorem hadFresh_doVerify_false (m : M) (h : m.1.doVerify = false) : (hadFresh m
   unfold hadFresh
   dsimp only
   split
-  · simp
-  · simpa using h
+  · simp only [onSt_fst]; exact stop_doVerify_false _ _ rfl
+  · exact hadCheck_doVerify_false _ (by simpa using h)
 
 theorem handleAllocationDone_doVerify_false (m : M) (he hm : Bool) (h : m.1.doVerify = false) :
     (handleAllocationDone m he hm).1.doVerify = false := by
@@ -212,13 +217,16 @@ theorem handleAllocationDone_doVerify_false (m : M) (he hm : Bool) (h : m.1.doVe
   repeat' split
   all_goals first
     | (apply hadFresh_doVerify_false; simpa using h)
+    | (unfold hadTrust; apply hadCheck_doVerify_false; simpa using h)
     | simpa using h
 
 theorem allocatorRun_doVerify_false (m : M) (h : m.1.doVerify = false) : (allocatorRun m).1.doVerify = false := by
-  unfold allocatorRun
-  dsimp only
+  rw [allocatorRun_eq]
   split
-  · simpa using h
+  · unfold allocFail
+    simp only [onSt_fst]
+    apply stop_doVerify_false
+    simpa using h
   · apply handleAllocationDone_doVerify_false; simpa using h
 
 theorem runWorkers_doVerify_false (fuel : Nat) (m : M) (h : m.1.doVerify = false) :
@@ -235,7 +243,9 @@ theorem runWorkers_doVerify_false (fuel : Nat) (m : M) (h : m.1.doVerify = false
          first
            | simpa using h
            | exact allocatorRun_doVerify_false m h
-           | exact handleVerificationDone_doVerify m h)
+           | exact handleVerificationDone_doVerify m h
+           | exact writerRun_doVerify_false m _ h
+           | exact handlePieceWriteDone_doVerify_false m _ _ h)
 
 theorem deliverParked_doVerify_false (m : M) (p : Parked) (h : m.1.doVerify = false) :
     (deliverParked m p).1.1.doVerify = false := by
@@ -251,7 +261,7 @@ theorem stopOp_withdraws_verify (s : St) (p : Parked) (kn : Nat → Bool) (op : 
     (handle s p kn op).1.1.doVerify = false ∧ (step s p kn op).1.st.doVerify = false := by
   have hh : ∀ s : St, (handle s p kn op).1.1.doVerify = false := by
     intro s
-    rcases hop with rfl | rfl <;> simp only [handle, onSt_fst, stop_doVerify]
+    rcases hop with rfl | rfl <;> (simp only [handle, onSt_fst]; exact stop_doVerify_false _ _ rfl)
   refine ⟨hh s, ?_⟩
   rw [step_st]
   have h2 := runWorkers_doVerify_false 12 _ (hh { s with sto := [], mayStart := [], closedDl := [], mayStartI := false })
